@@ -211,12 +211,15 @@ def iv_case(kind, precision, contract=False):
             bmod.bisect = real_bisect
         c.check("the search bracket is [0.001, 1]", len(rec) >= 1 and abs(float(rec[0][0]) - 0.001) < 1e-6 and float(rec[0][1]) == 1.0)
         c.check("implied volatility shape", tuple(iv.shape) == shape)
-        c.check("|IV(price(v0)) - v0| <= precision", api.le(api.absv(elem(iv, 0) - elem(v0, 0)), precision))
+        c.check("|IV(price(v0)) - v0| <= precision", api.le(api.absv(elem(iv, 0) - elem(v0, 0)), precision, tol=min(1e-9, precision * 1e-2)))
         c.check("IV inside the search bracket", api.all_(api.ge(elem(iv, 0), Fraction(1, 1000)), api.le(elem(iv, 0), 1)))
         c.check("the pricer is evaluated during the search", n_eval[0] >= 3)
-        if contract and kind != "lookback":  # (the lookback control does not come back within the budget; the other four guard the shared stub)
-            c.control("control:|IV - v0| <= precision/2", api.le(api.absv(elem(iv, 0) - elem(v0, 0)), precision / 2))
-        elif kind in ("european", "eubinary-call-itm"):
+        if contract and kind != "lookback" and precision >= 1e-3:
+            # (vacuity guard of the contract cases: at a coarse precision, where the real search misses precision/16 by a margin the
+            #  replay can see; at 1e-9 the real error is a matter of rounding luck.  The lookback control does not come back within the
+            #  budget; the other four guard the shared stub and lemma)
+            c.control("control:|IV - v0| <= precision/16", api.le(api.absv(elem(iv, 0) - elem(v0, 0)), precision / 16))
+        elif not contract and kind in ("european", "eubinary-call-itm"):
             c.control("control:|IV - v0| <= precision/16", api.le(api.absv(elem(iv, 0) - elem(v0, 0)), precision / 16))
 
     return fn
@@ -284,6 +287,10 @@ def cases():
             "; log-moneyness in (0,1] where the binary price is monotone in volatility" if "binary" in k else ""),
             families=("basic", "mono", "bounds"), max_paths=8, timeout=120))
     for k in IV_KINDS:
+        if k != "lookback":
+            cs.append(Case("iv-contract/%s/2^-6" % k, iv_case(k, 1 / 64, contract=True), encodes=enc,
+                           bounds="requested precision 1/64 (carries the negative control of the contract cases)",
+                           families=("basic", "mono", "bounds"), max_paths=16, timeout=120))
         cs.append(Case("iv-contract/%s/1e-9" % k, iv_case(k, 1e-9, contract=True), encodes=enc,
                        bounds="requested precision 1e-9; bisect replaced by its contract with the precision that actually reaches it",
                        families=("basic", "mono", "bounds"), max_paths=16, timeout=120))
